@@ -29,6 +29,13 @@ def solve1(eta, dr, L, hc, kT=1.0, pot=None, clo='py', rho=None, method='krylov'
     if isinstance(res, Exception) or not res.success: return None
     return p
 
+def contact_misplaced(r, sigma):
+    """known finding F7 (property C10): a grid point that nominally coincides with sigma but lies above it by rounding is treated as
+    OUTSIDE the core; the solved fluid then has a core one grid point smaller and the calibrated constants below do not apply."""
+    r = np.asarray(r)
+    near = np.abs(r - sigma) <= 1e-9 * sigma
+    return bool(np.any(near & (r > sigma)))
+
 def suite_scan(ctx, case):
     """a density scan that re-uses ONE System: PRISM objects are created for several packing fractions first and solved
     afterwards (in another order); each must reproduce the Wertheim-Thiele values of ITS OWN state point"""
@@ -49,6 +56,8 @@ def suite_scan(ctx, case):
         out = ctx.drv.ask('wt %s %s' % (f2h(eta), f2h(0.5))).split()
         contact = h2f(out[0]); S0 = h2f(out[1])
         d = p.sys.domain
+        if contact_misplaced(d.r, 1.0):
+            ctx.dist['scan:skipped-contact-float-noise(F7,C10)'] += 1; continue
         g = pyPRISM.calculate.pair_correlation(p)[T1, T1]
         first = int(np.argmax(d.r > 1.0 + 1e-9))
         S = pyPRISM.calculate.structure_factor(p)[T1, T1]
@@ -84,6 +93,8 @@ def suite_wertheim(ctx, case):
         if p is None:
             ctx.dist['wertheim:not-converged'] += 1; return
         d = p.sys.domain
+        if contact_misplaced(d.r, dd):
+            ctx.dist['wertheim:skipped-contact-float-noise(F7,C10)'] += 1; return
         g = pyPRISM.calculate.pair_correlation(p)[T1, T1]
         first = int(np.argmax(d.r > dd * (1.0 + 1e-9)))
         e_contact.append(abs(g[first] - contact) / contact)
